@@ -3,12 +3,25 @@
 package k8s
 
 import (
+	"bufio"
+	"context"
+	"fmt"
+	"os"
+	"os/exec"
+	"runtime/debug"
+	"strings"
+	"sync"
 	"testing"
 
 	corev1 "k8s.io/api/core/v1"
 	metav1 "k8s.io/apimachinery/pkg/apis/meta/v1"
 	"k8s.io/apimachinery/pkg/util/sets"
+	"k8s.io/client-go/kubernetes/scheme"
+	"k8s.io/client-go/tools/record"
+	"sigs.k8s.io/controller-runtime/pkg/client/fake"
 
+	"github.com/AliyunContainerService/terway/pkg/storage"
+	"github.com/AliyunContainerService/terway/pkg/tracing"
 	"github.com/AliyunContainerService/terway/types"
 	"github.com/AliyunContainerService/terway/zzverif/inputstok"
 	"github.com/AliyunContainerService/terway/zzverif/vt"
@@ -18,9 +31,156 @@ func verifBwOut(v uint64, err error) vt.M {
 	return vt.M{"err": err != nil, "v1024": inputstok.Limbs(v, 1024), "v1000": inputstok.Limbs(v, 1000)}
 }
 
+func verifPod(in vt.M) *corev1.Pod {
+	anno := map[string]string{}
+	for _, k := range []string{podIngressBandwidth, podEgressBandwidth, types.PodENI, types.NetworkPriority,
+		types.PodIPReservation, types.PodNetworks, types.PodNetworksRequest, types.PodNetworking, "cpuSet"} {
+		inputstok.Set(anno, k, in["val"])
+	}
+	pod := &corev1.Pod{
+		ObjectMeta: metav1.ObjectMeta{Name: "p", Namespace: "default", UID: "uid-1", Annotations: anno},
+		Spec:       corev1.PodSpec{NodeName: "node-1", Containers: []corev1.Container{{Name: "c"}}},
+		Status:     corev1.PodStatus{PodIP: "10.0.0.5", PodIPs: []corev1.PodIP{{IP: "10.0.0.5"}}},
+	}
+	if inputstok.Absent(in["val"]) {
+		pod.Annotations = nil
+	}
+	return pod
+}
+
+// verifDaemonPathChild: the same pods looked up the way the running daemon does it - (*k8s).GetPod over an API client with the
+// daemon's event recorder registered in the tracing package (daemon/builder.go RegisterTracing), so that what convertPod
+// reports about a malformed annotation really goes through RecordPodEvent. One line per case: "<index> ok" / "<index> panic: ...".
+// A fatal error (stack overflow, concurrent map access) kills this child; the parent attributes it to the case in progress.
+func verifDaemonPathChild(t *testing.T) {
+	debug.SetMaxStack(48 << 20) // a runaway recursion reaches the same fatal error sooner; sound code needs kilobytes
+	cases, err := vt.ReadNDJSON(vt.Env("VERIF_CASES", ""))
+	if err != nil {
+		t.Fatal(err)
+	}
+	from := vt.EnvInt("VERIF_K8S_FROM", 0)
+	f, err := os.OpenFile(vt.Env("VERIF_K8S_OUT", ""), os.O_APPEND|os.O_WRONLY|os.O_CREATE, 0o600)
+	if err != nil {
+		t.Fatal(err)
+	}
+	defer f.Close()
+	idx := -1
+	for _, c := range cases {
+		in := vt.Map(c["in"])
+		if vt.Str(in["fn"]) != "convertpod" {
+			continue
+		}
+		idx++
+		if idx < from {
+			continue
+		}
+		fmt.Fprintf(f, "%d begin\n", idx)
+		p := vt.Catch(func() {
+			pod := verifPod(in)
+			k := &k8s{
+				client:          fake.NewClientBuilder().WithScheme(scheme.Scheme).WithObjects(pod).Build(),
+				storage:         storage.NewMemoryStorage(),
+				recorder:        record.NewFakeRecorder(4096),
+				mode:            vt.Str(in["mode"]),
+				nodeName:        "node-1",
+				daemonNamespace: "kube-system",
+				node:            &corev1.Node{ObjectMeta: metav1.ObjectMeta{Name: "node-1"}},
+				statefulWorkloadKindSet: sets.New[string]("statefulset"),
+				enableErdma:     vt.Bool(in["erdma"]),
+				Locker:          &sync.RWMutex{},
+			}
+			tracing.RegisterEventRecorder(k.RecordNodeEvent, k.RecordPodEvent)
+			if _, err := k.GetPod(context.Background(), "default", "p", false); err != nil {
+				panic("GetPod of an existing pod failed: " + err.Error())
+			}
+			if _, err := k.GetLocalPods(); err != nil {
+				panic("GetLocalPods failed: " + err.Error())
+			}
+		})
+		if p != "" {
+			fmt.Fprintf(f, "%d panic: %s\n", idx, strings.ReplaceAll(p, "\n", " "))
+		} else {
+			fmt.Fprintf(f, "%d ok\n", idx)
+		}
+	}
+}
+
+// verifDaemonPath runs the child (again after every crash) and returns, per convertpod case index, what went wrong ("" = nothing).
+func verifDaemonPath(t *testing.T) map[int]string {
+	bad := map[int]string{}
+	self, err := os.Executable()
+	if err != nil {
+		t.Fatal(err)
+	}
+	outf := vt.Env("VERIF_RESULTS", "") + ".daemonpath"
+	os.Remove(outf)
+	defer os.Remove(outf)
+	from := 0
+	for round := 0; round < 400; round++ {
+		cmd := exec.Command(self, "-test.run", "^TestVerifInputsK8s$", "-test.count=1", "-test.timeout", "900s")
+		cmd.Env = append(os.Environ(), "VERIF_K8S_CHILD=1", fmt.Sprintf("VERIF_K8S_FROM=%d", from), "VERIF_K8S_OUT="+outf)
+		outb, cerr := cmd.CombinedOutput()
+		last, begun := -1, -1
+		if fh, err := os.Open(outf); err == nil {
+			sc := bufio.NewScanner(fh)
+			sc.Buffer(make([]byte, 1<<20), 1<<20)
+			for sc.Scan() {
+				var i int
+				var rest string
+				line := sc.Text()
+				if n, _ := fmt.Sscanf(line, "%d", &i); n == 1 {
+					rest = strings.TrimSpace(strings.TrimPrefix(line, fmt.Sprint(i)))
+					switch {
+					case rest == "begin":
+						begun = i
+					case rest == "ok":
+						last = i
+					case strings.HasPrefix(rest, "panic:"):
+						last = i
+						bad[i] = "daemon path (GetPod with the event recorder registered): " + rest
+					}
+				}
+			}
+			fh.Close()
+		}
+		if cerr == nil {
+			return bad
+		}
+		if begun <= last || begun < from {
+			t.Fatalf("daemon-path child failed without a case in progress: %v\n%s", cerr, tail(string(outb), 2000))
+		}
+		msg := "fatal error"
+		for _, l := range strings.Split(string(outb), "\n") {
+			if strings.HasPrefix(l, "fatal error:") || strings.Contains(l, "goroutine stack exceeds") {
+				msg = l
+				break
+			}
+		}
+		bad[begun] = "daemon path (GetPod with the event recorder registered) killed the process: " + msg
+		from = begun + 1
+		if round >= 5 {
+			return bad // six fatal cases are reported; the remaining cases keep their direct convertPod observation only
+		}
+	}
+	return bad
+}
+
+func tail(s string, n int) string {
+	if len(s) > n {
+		return s[len(s)-n:]
+	}
+	return s
+}
+
 // TestVerifInputsK8s runs the daemon-side annotation parsers of C15 (specs/Inputs.tla) on every case:
 // parseBandwidth, convertPod (all annotations at once) and the pod store's record decoder.
 func TestVerifInputsK8s(t *testing.T) {
+	if os.Getenv("VERIF_K8S_CHILD") != "" {
+		verifDaemonPathChild(t)
+		return
+	}
+	daemonBad := verifDaemonPath(t)
+	cidx := -1
 	inputstok.Run(t, map[string]func(in, out vt.M){
 		"bandwidth": func(in, out vt.M) {
 			v, err := parseBandwidth(inputstok.Join(in["val"]))
@@ -37,19 +197,11 @@ func TestVerifInputsK8s(t *testing.T) {
 			out["res"] = res
 		},
 		"convertpod": func(in, out vt.M) {
-			anno := map[string]string{}
-			for _, k := range []string{podIngressBandwidth, podEgressBandwidth, types.PodENI, types.NetworkPriority,
-				types.PodIPReservation, types.PodNetworks, types.PodNetworksRequest, types.PodNetworking, "cpuSet"} {
-				inputstok.Set(anno, k, in["val"])
+			cidx++
+			if msg := daemonBad[cidx]; msg != "" {
+				panic(msg)
 			}
-			pod := &corev1.Pod{
-				ObjectMeta: metav1.ObjectMeta{Name: "p", Namespace: "default", UID: "uid-1", Annotations: anno},
-				Spec:       corev1.PodSpec{Containers: []corev1.Container{{Name: "c"}}},
-				Status:     corev1.PodStatus{PodIP: "10.0.0.5", PodIPs: []corev1.PodIP{{IP: "10.0.0.5"}}},
-			}
-			if inputstok.Absent(in["val"]) {
-				pod.Annotations = nil
-			}
+			pod := verifPod(in)
 			pi := convertPod(vt.Str(in["mode"]), vt.Bool(in["erdma"]), sets.New[string]("statefulset"), pod)
 			out["in1024"], out["in1000"] = inputstok.Limbs(pi.TcIngress, 1024), inputstok.Limbs(pi.TcIngress, 1000)
 			out["eg1024"], out["eg1000"] = inputstok.Limbs(pi.TcEgress, 1024), inputstok.Limbs(pi.TcEgress, 1000)
